@@ -273,8 +273,8 @@ func (c *caseCtx) newSyncer(ttl time.Duration, window uint64) snap.Syncer {
 
 type cycle struct {
 	target  *stateData
-	cancelR int // cancel after this many further responses (0 = no)
-	cancelW int // cancel after this many further monitored puts (0 = no)
+	cancelR int  // cancel after this many further responses (0 = no)
+	cancelW int  // cancel after this many further monitored puts (0 = no)
 	crash   bool // with cancelW: kill instead of cancel (resume from the store as of that write, new instance)
 	fresh   bool
 }
@@ -361,6 +361,10 @@ func runCase(r *vrt.Run, i int) {
 			steps++
 		}
 		forkAt = rng.Intn(idx[reorgAt-1])
+	}
+	// keep the ground truth of one case (one account trie per state) within ~150 MB
+	if total := steps + forkLen + 4; accounts*total > 120000 {
+		accounts = 120000 / total
 	}
 	c.ch = newChain(r.Rand("chain", i), chainOpts{accounts: accounts, bigSlots: bigSlots, steps: steps, forkLen: forkLen, forkAt: forkAt,
 		decoys: 2 + rng.Intn(2), maxOps: 2 + accounts/40 + rng.Intn(10), minedSlots: mined})
@@ -449,10 +453,6 @@ func runCase(r *vrt.Run, i int) {
 	for _, s := range c.ch.states {
 		rawdb.WriteHeader(c.db.raw(), s.header)
 	}
-	firstNibbles := map[byte]bool{}
-	for h := range final.accts {
-		firstNibbles[h[0]>>4] = true
-	}
 
 	// ---- cycles
 	var plan []cycle
@@ -493,7 +493,7 @@ func runCase(r *vrt.Run, i int) {
 				n = m
 			}
 		}
-		c.bound.Store((4*n + 300) * int64(len(plan)))
+		c.bound.Store((n + 200) * int64(len(plan)))
 	}
 
 	// ---- run
@@ -552,6 +552,13 @@ func runCase(r *vrt.Run, i int) {
 			}
 		}
 		c.mon.admissible.Store(&mask)
+		// snap/2 generates the trie from the flat state per first-nibble partition; with a
+		// single populated partition it writes a transient sub-root that is folded away
+		// afterwards, so the per-node check needs at least two populated partitions.
+		firstNibbles := map[byte]bool{}
+		for h := range target.accts {
+			firstNibbles[h[0]>>4] = true
+		}
 		c.mon.strictV2.Store(c.version == 2 && len(firstNibbles) >= 2)
 		if target != prev && prev != nil {
 			c.count("pivot_moves", 1)
@@ -804,9 +811,9 @@ func run(r *vrt.Run) {
 		"shared code, 1..60 states with access lists, optional fork and decoy states) x random pivot plan (moves, cancels after k responses " +
 		"or k writes, fresh syncer instances, reorg) x 1-8 peers with per-request random behaviour. non-trivial signature = (version, scheme, " +
 		"hostile?, misbehaviour families seen, pivot moves bucket, same-pivot restarts bucket, reorg?, #large contracts, size class, short TTL?)")
-	n := r.N(96, 6000)
+	n := r.N(96, 2400)
 	if r.Race() {
-		n = r.N(24, 600)
+		n = r.N(32, 320)
 	}
 	if only := os.Getenv("VERIF_CASE"); only != "" { // replay of a single case (same generated inputs)
 		i, _ := strconv.Atoi(only)
@@ -820,12 +827,12 @@ func run(r *vrt.Run) {
 
 	r.Extra("bounded_progress_max_ratio_permille", maxRatio)
 	r.Logf("bounded progress: max responses/bound = %d permille", maxRatio)
-	r.Extra("bounded_progress_bound", "responses <= (4*(accounts+slots+codes+trie nodes) + 300) * sync cycles, honest/partial peers only")
+	r.Extra("bounded_progress_bound", "responses <= ((accounts+slots+codes+trie nodes of the largest targeted state) + 200) * planned sync cycles, honest/partial peers only")
 	r.Assume("ground truth from the reference trie verif/lib/refmpt and the reference account encodings verif/lib/flatstate; Merkle proofs of honest peers are assembled from the reference trie's node set")
 	r.Assume("C12 clause 'a delivered node whose hash does not match is rejected and never written' is decided here: corrupted / substituted / reordered trie-node responses go through the real snap.Syncer.OnTrieNodes and every trie-node write is checked by the write monitor (counters heal_*_delivered, heal_responses_rejected_by_OnTrieNodes, monitor_puts_trienode_*)")
 	if !r.Race() {
 		for _, k := range []string{"completed_v1_hash", "completed_v1_path", "completed_v2_hash", "completed_v2_path"} {
-			r.Require(k, int64(r.N(12, 600)))
+			r.Require(k, int64(r.N(12, 300)))
 		}
 		r.Require("pivot_moves", 20)
 		r.Require("v2_completed_after_pivot_move", 8)
@@ -843,6 +850,11 @@ func run(r *vrt.Run) {
 		r.Require("resp_code_rejected", 3)
 		r.Require("heal_responses_rejected_by_OnTrieNodes", 3)
 		r.Require("heal_corrupt_nodes_delivered", 2)
+		r.Require("reorged_pivots", 1)
+		r.Require("crash_restarts", 5)
+		r.Require("mined_truncations", 2)
+		r.Require("req_storage_subrange_bounded", 5)
+		r.Require("cycles_bal_unavailable", 0)
 	} else {
 		r.Require("completion_comparisons", 1000)
 	}
